@@ -902,3 +902,311 @@ pub fn run_fft_params(c: &Case) -> (Verdict, Vec<Option<(usize, usize, Vec<i64>)
     sx.fft_params = true;
     run_program_sx(c, &mut sx)
 }
+
+// ---------------------------------------------------------------------------------------------
+// composite operations (C16): multiply-add / multiply-subtract, sums, dot products, products of many
+// ---------------------------------------------------------------------------------------------
+
+fn fresh_reg(cx: &Ctx, sx: &mut Sx, limbs: u8, ld: u8, ptlb: u8, mag_bits: u8, seed: u64) -> Option<Reg> {
+    use poulpy_ckks::leveled::CKKSEncrypt;
+    let p = cx.p;
+    let (n, b) = (p.n, p.base2k);
+    let m = n / 2;
+    let ld = (ld as usize).clamp(12, p.ld_max);
+    let ptlb = (ptlb as usize).clamp(4, 12);
+    let k_enc = (limbs.clamp(2, 8) as usize).min(p.k / b) * b;
+    let prec = CKKSMeta { log_delta: ld, log_budget: ptlb };
+    if prec.min_k((b as u32).into()).as_usize() > k_enc || k_enc < ld + ptlb {
+        return None;
+    }
+    let mag = p2((mag_bits as i64 % (ptlb as i64 - 2)).max(0)) * 0.9;
+    let (re, im) = gen_slots(m, mag, seed);
+    let mut rnx = CKKSPlaintextVecRnx::<f64>::alloc(n).unwrap();
+    cx.encoder.encode_reim(&mut rnx, &re, &im).unwrap();
+    let mut pt = alloc_pt_vec_znx((n as u32).into(), (b as u32).into(), prec);
+    rnx.to_znx(&mut pt).unwrap();
+    let mut ct = CKKSCiphertext::alloc((n as u32).into(), (k_enc as u32).into(), (b as u32).into());
+    let mut lay = glwe_layout(&p);
+    lay.k = (k_enc as u32).into();
+    let enc = EncryptionLayout::new_from_default_sigma(lay).unwrap();
+    cx.module.ckks_encrypt_sk(&mut ct, &pt, &cx.sk, &enc, &mut Source::new(seed32(seed, 3)), &mut Source::new(seed32(seed, 4)), sx.roomy()).ok()?;
+    let lb = k_enc - ld;
+    let nf = n as f64;
+    let err = nf * (0.5 * p2(-(ld as i64)) + 21.0 * p2(-(k_enc as i64) + lb as i64)) * 2.0;
+    Some(Reg { ct, sh: Shadow { re, im, ld, lb, err } })
+}
+
+/// decrypts and decodes `ct` at its own metadata; None when the value cannot be extracted in f64
+fn slots_of(cx: &Ctx, sx: &mut Sx, ct: &CKKSCiphertext<Vec<u8>>, mag_hint: f64) -> Option<(Vec<f64>, Vec<f64>)> {
+    let p = cx.p;
+    let (n, b) = (p.n, p.base2k);
+    let m = n / 2;
+    let (ld, lb) = (ct.log_delta(), ct.log_budget());
+    let need = (mag_hint.max(1.0).log2().ceil() as usize) + 3;
+    let dlb = lb.min(110usize.saturating_sub(ld));
+    if dlb < need || ld > 53 {
+        return None;
+    }
+    let mut pt = alloc_pt_vec_znx((n as u32).into(), (b as u32).into(), CKKSMeta { log_delta: ld, log_budget: dlb });
+    cx.module.ckks_decrypt(&mut pt, ct, &cx.sk, sx.roomy()).ok()?;
+    let mut rnx = CKKSPlaintextVecRnx::<f64>::alloc(n).unwrap();
+    pzv_common::driver::guarded(|| rnx.decode_from_znx(&pt).unwrap()).ok()?;
+    let (mut re, mut im) = (vec![0.0; m], vec![0.0; m]);
+    cx.encoder.decode_reim(&rnx, &mut re, &mut im).unwrap();
+    Some((re, im))
+}
+
+fn raw_of(ct: &CKKSCiphertext<Vec<u8>>) -> (usize, usize, Vec<i64>) {
+    use poulpy_hal::layouts::ZnxView;
+    (ct.log_delta(), ct.log_budget(), ct.data().raw().to_vec())
+}
+
+fn same_result(x: &anyhow::Result<()>, y: &anyhow::Result<()>) -> bool {
+    match (x, y) {
+        (Ok(()), Ok(())) => true,
+        (Err(a), Err(b)) => err_kind(a) == err_kind(b),
+        _ => false,
+    }
+}
+
+pub fn run_composite(c: &CompCase) -> Verdict {
+    use poulpy_ckks::leveled::{CKKSAddManyOps, CKKSDotProductOps, CKKSMulAddOps, CKKSMulManyOps, CKKSMulSubOps};
+    let cx = ctx(c.pset as usize % 2);
+    let p = cx.p;
+    let (n, b) = (p.n, p.base2k);
+    let m = n / 2;
+    let nf = n as f64;
+    let hw = p.hw as f64;
+    let md = &cx.module;
+    let mut sx = Sx::new(false, 0, cx.scratch_bytes);
+    let kind = c.kind as usize % COMP_KINDS.len();
+    let name = COMP_KINDS[kind];
+    let fail = |what: &str, d: String| Verdict::fail(format!("{name}|{what}"), format!("backend={B_NAME} {name}: {d}\ncase={c:?}"));
+    // operands: fresh ciphertexts with generated limb counts / scales, compacted (the products assert compact operands)
+    let nterms = 1 + (c.n as usize % 4);
+    let mut regs: Vec<Reg> = vec![];
+    for i in 0..2 * nterms + 1 {
+        let o = &c.operands[i % c.operands.len()];
+        // dot products / products of many / sums want a common log_delta per side
+        let ld = if kind >= 6 { c.operands[i % 2].1 } else { o.1 };
+        match fresh_reg(cx, &mut sx, o.0, ld, o.2, o.3, c.seed ^ (i as u64 * 0x9E37)) {
+            Some(mut r) => {
+                let _ = md.ckks_compact_limbs(&mut r.ct);
+                regs.push(r);
+            }
+            None => return Verdict::pass(false, &[name, "skipped:operand_not_encodable"]),
+        }
+    }
+    let alloc = |limbs: u8| CKKSCiphertext::alloc((n as u32).into(), ((limbs.clamp(1, 10) as usize * b) as u32).into(), (b as u32).into());
+    let mut cl: Vec<&str> = vec![name, B_NAME];
+    let key_noise = |sp: usize| -> f64 { 4.0 * sp as f64 * p2(b as i64) * nf * 21.0 * p2(-(cx.key_k as i64)) * (1.0 + hw) + 4.0 * (1.0 + hw) * p2(-((cx.key_size * b) as i64)) };
+    match kind {
+        0..=5 => {
+            // dst <- dst +- a * x  ==  (tmp <- a * x into a buffer shaped like dst; dst <- dst +- tmp), bit for bit
+            let (a, bb) = (&regs[0], &regs[1]);
+            // two identical copies of the destination (encryption is deterministic in its seeds)
+            let mk_dst = |sx: &mut Sx| -> Option<CKKSCiphertext<Vec<u8>>> {
+                let o = &c.operands[2 % c.operands.len()];
+                let mut r = fresh_reg(cx, sx, o.0, o.1, o.2, o.3, c.seed ^ (2u64 * 0x9E37))?;
+                let _ = md.ckks_compact_limbs(&mut r.ct);
+                Some(r.ct)
+            };
+            let (Some(mut dst1), Some(mut dst2)) = (mk_dst(&mut sx), mk_dst(&mut sx)) else {
+                return Verdict::pass(false, &[name, "skipped:operand_not_encodable"]);
+            };
+            if raw_of(&dst1) != raw_of(&dst2) {
+                return fail("harness", "the two copies of the destination differ".into());
+            }
+            let mut tmp = CKKSCiphertext::alloc((n as u32).into(), dst1.max_k(), (b as u32).into());
+            let ptld = (c.operands[0].1 as usize).clamp(8, p.ld_max);
+            let prec = CKKSMeta { log_delta: ptld, log_budget: (c.operands[0].2 as usize).clamp(3, 10) };
+            let (pre, pim) = gen_slots(m, 0.9, c.seed ^ 0x77);
+            let mut rnx = CKKSPlaintextVecRnx::<f64>::alloc(n).unwrap();
+            cx.encoder.encode_reim(&mut rnx, &pre, &pim).unwrap();
+            let cst = match c.seed % 4 {
+                0 => CKKSPlaintextCstRnx::<f64>::new(Some(pre[0]), Some(pim[0])),
+                1 => CKKSPlaintextCstRnx::<f64>::new(Some(pre[0]), None),
+                2 => CKKSPlaintextCstRnx::<f64>::new(None, Some(pim[0])),
+                _ => CKKSPlaintextCstRnx::<f64>::new(None, None),
+            };
+            let none_const = c.seed % 4 == 3;
+            let (r1, r2): (anyhow::Result<()>, anyhow::Result<()>) = match kind {
+                0 => (md.ckks_mul_add_ct_into(&mut dst1, &a.ct, &bb.ct, &cx.tsk, sx.roomy()), md.ckks_mul_into(&mut tmp, &a.ct, &bb.ct, &cx.tsk, sx.roomy()).and_then(|_| md.ckks_add_assign(&mut dst2, &tmp, sx.roomy()))),
+                1 => (md.ckks_mul_sub_ct_into(&mut dst1, &a.ct, &bb.ct, &cx.tsk, sx.roomy()), md.ckks_mul_into(&mut tmp, &a.ct, &bb.ct, &cx.tsk, sx.roomy()).and_then(|_| md.ckks_sub_assign(&mut dst2, &tmp, sx.roomy()))),
+                2 => (md.ckks_mul_add_pt_vec_rnx_into(&mut dst1, &a.ct, &rnx, prec, sx.roomy()), md.ckks_mul_pt_vec_rnx_into(&mut tmp, &a.ct, &rnx, prec, sx.roomy()).and_then(|_| md.ckks_add_assign(&mut dst2, &tmp, sx.roomy()))),
+                3 => (md.ckks_mul_sub_pt_vec_rnx_into(&mut dst1, &a.ct, &rnx, prec, sx.roomy()), md.ckks_mul_pt_vec_rnx_into(&mut tmp, &a.ct, &rnx, prec, sx.roomy()).and_then(|_| md.ckks_sub_assign(&mut dst2, &tmp, sx.roomy()))),
+                4 => (
+                    md.ckks_mul_add_pt_const_rnx_into(&mut dst1, &a.ct, &cst, prec, sx.roomy()),
+                    if none_const { Ok(()) } else { md.ckks_mul_pt_const_rnx_into(&mut tmp, &a.ct, &cst, prec, sx.roomy()).and_then(|_| md.ckks_add_assign(&mut dst2, &tmp, sx.roomy())) },
+                ),
+                _ => (
+                    md.ckks_mul_sub_pt_const_rnx_into(&mut dst1, &a.ct, &cst, prec, sx.roomy()),
+                    if none_const { Ok(()) } else { md.ckks_mul_pt_const_rnx_into(&mut tmp, &a.ct, &cst, prec, sx.roomy()).and_then(|_| md.ckks_sub_assign(&mut dst2, &tmp, sx.roomy())) },
+                ),
+            };
+            if !same_result(&r1, &r2) {
+                return fail("result-differs-from-primitives", format!("the composite returned {:?}, the product into a buffer shaped like the destination followed by the in-place sum returned {:?}", r1.as_ref().map_err(|e| e.to_string()), r2.as_ref().map_err(|e| e.to_string())));
+            }
+            if r1.is_ok() && raw_of(&dst1) != raw_of(&dst2) {
+                return fail("differs-from-primitives", format!("metadata / digits differ from the product into a buffer shaped like the destination followed by the in-place sum: composite (log_delta, log_budget) = ({}, {}), primitives ({}, {})", dst1.log_delta(), dst1.log_budget(), dst2.log_delta(), dst2.log_budget()));
+            }
+            cl.push(if r1.is_ok() { "ok" } else { "error_path" });
+        }
+        6 => {
+            // sum of n ciphertexts: metadata of the chain of additions; slots within the accumulated bound
+            let ins: Vec<&CKKSCiphertext<Vec<u8>>> = regs[..nterms].iter().map(|r| &r.ct).collect();
+            let mut dst = alloc(c.dst_limbs);
+            let r1 = md.ckks_add_many(&mut dst, &ins, sx.roomy());
+            // reference: the same sum through the two-operand forms
+            let mut refd = alloc(c.dst_limbs);
+            let r2: anyhow::Result<()> = if nterms == 1 {
+                // a single input is a copy into the destination: adding a zero-budget-preserving step = rescale by 0
+                md.ckks_rescale_into(&mut refd, 0, ins[0], sx.roomy())
+            } else {
+                let mut r = md.ckks_add_into(&mut refd, ins[0], ins[1], sx.roomy());
+                for ct in &ins[2..] {
+                    if r.is_ok() {
+                        r = md.ckks_add_assign(&mut refd, ct, sx.roomy());
+                    }
+                }
+                r
+            };
+            if r1.is_ok() != r2.is_ok() {
+                return fail("result-differs-from-primitives", format!("ckks_add_many of {nterms} inputs returned {:?}, the chain of two-operand additions {:?}", r1.as_ref().map_err(|e| e.to_string()), r2.as_ref().map_err(|e| e.to_string())));
+            }
+            if r1.is_ok() {
+                if (dst.log_delta(), dst.log_budget()) != (refd.log_delta(), refd.log_budget()) {
+                    return fail("metadata-differs-from-primitives", format!("ckks_add_many gives (log_delta, log_budget) = ({}, {}), the chain of additions ({}, {})", dst.log_delta(), dst.log_budget(), refd.log_delta(), refd.log_budget()));
+                }
+                if dst.log_delta() + dst.log_budget() > dst.max_k().as_usize() {
+                    return fail("metadata-exceeds-stored-precision", format!("log_delta + log_budget = {} > {}", dst.log_delta() + dst.log_budget(), dst.max_k().as_usize()));
+                }
+                let mag: f64 = regs[..nterms].iter().map(|r| r.sh.mag()).sum();
+                if let (Some((re, im)), true) = (slots_of(cx, &mut sx, &dst, mag), mag * 8.0 < p2(dst.log_budget() as i64)) {
+                    let tol: f64 = regs[..nterms].iter().map(|r| 2.0 * r.sh.err).sum::<f64>() + nterms as f64 * nf * (8.0 * (1.0 + hw) * p2(-(dst.max_k().as_usize() as i64)) * p2(dst.log_budget() as i64) + 4.0 * p2(-(dst.log_delta() as i64)));
+                    for i in 0..m {
+                        let (wr, wi): (f64, f64) = (regs[..nterms].iter().map(|r| r.sh.re[i]).sum(), regs[..nterms].iter().map(|r| r.sh.im[i]).sum());
+                        let d = (re[i] - wr).hypot(im[i] - wi);
+                        if !(d <= tol) {
+                            return fail("decoded-slots-differ", format!("slot {i}: sum of {nterms} ciphertexts decrypts to ({:.6e}, {:.6e}), expected ({wr:.6e}, {wi:.6e}); |diff| = {d:.3e} > {tol:.3e}", re[i], im[i]));
+                        }
+                    }
+                    cl.push("values_checked");
+                }
+            }
+            cl.push(if r1.is_ok() { "ok" } else { "error_path" });
+        }
+        7 => {
+            // dot product sum a_i * b_i, common log_delta per side
+            let (avec, bvec): (Vec<&Reg>, Vec<&Reg>) = ((0..nterms).map(|i| &regs[2 * i]).collect(), (0..nterms).map(|i| &regs[2 * i + 1]).collect());
+            let ains: Vec<&CKKSCiphertext<Vec<u8>>> = avec.iter().map(|r| &r.ct).collect();
+            let bins: Vec<&CKKSCiphertext<Vec<u8>>> = bvec.iter().map(|r| &r.ct).collect();
+            let mut dst = alloc(c.dst_limbs);
+            let r1 = md.ckks_dot_product_ct(&mut dst, &ains, &bins, &cx.tsk, sx.roomy());
+            // model of the budget algebra (same as one product, with the smallest budgets of each side)
+            let (a_ld, b_ld) = (avec[0].sh.ld, bvec[0].sh.ld);
+            let (a_lb, b_lb) = (avec.iter().map(|r| r.sh.lb).min().unwrap(), bvec.iter().map(|r| r.sh.lb).min().unwrap());
+            let cap = dst.max_k().as_usize();
+            let want: Option<(usize, usize)> = a_lb.min(b_lb).checked_sub(a_ld.max(b_ld)).and_then(|lb0| {
+                let ld = a_ld.min(b_ld);
+                let off = (lb0 + ld).saturating_sub(cap);
+                lb0.checked_sub(off).map(|lb| (ld, lb))
+            });
+            match (&r1, want) {
+                (Ok(()), None) => return fail("success-where-an-error-is-due", "the operand budgets do not allow a product, the library returned Ok".into()),
+                (Err(e), Some(_)) => return fail("error-where-success-is-due", format!("the library returned `{e}` for operands whose budgets allow the product")),
+                (Err(_), None) => cl.push("error_path"),
+                (Ok(()), Some((ld, lb))) => {
+                    if (dst.log_delta(), dst.log_budget()) != (ld, lb) {
+                        return fail("metadata-differs-from-model", format!("library (log_delta, log_budget) = ({}, {}), the bit-level algebra gives ({ld}, {lb})", dst.log_delta(), dst.log_budget()));
+                    }
+                    let mag: f64 = (0..nterms).map(|i| avec[i].sh.mag() * bvec[i].sh.mag()).sum();
+                    if mag * 8.0 < p2(lb as i64) && ld >= 8 {
+                        if let Some((re, im)) = slots_of(cx, &mut sx, &dst, mag) {
+                            let mut tol = 0.0;
+                            for i in 0..nterms {
+                                let (x, y) = (&avec[i].sh, &bvec[i].sh);
+                                let cap_t = avec[i].ct.max_k().as_usize().max(bvec[i].ct.max_k().as_usize());
+                                let mn = avec[i].ct.size().min(bvec[i].ct.size()) as f64;
+                                let tens = 4.0 * nf * mn * p2(b as i64 - 1) * (1.0 + 6.0 * hw + hw * hw) * p2(-(cap_t as i64));
+                                let (ea, eb) = (x.err + nf * p2(-(x.ld as i64)), y.err + nf * p2(-(y.ld as i64)));
+                                tol += x.mag() * eb + y.mag() * ea + ea * eb + (tens + 8.0 * (1.0 + hw) * p2(-(cap as i64))) * p2(lb as i64) * nf;
+                                // operands brought to the smallest budget of their side lose the bits below it
+                                tol += (x.mag() + y.mag()) * nf * 4.0 * p2(-(ld as i64));
+                            }
+                            tol = 2.0 * (tol + key_noise(cap.div_ceil(b)) * p2(lb as i64) * nf) + nf * p2(-(ld as i64)) * 4.0;
+                            for i in 0..m {
+                                let (mut wr, mut wi) = (0.0, 0.0);
+                                for t in 0..nterms {
+                                    let (x, y) = (&avec[t].sh, &bvec[t].sh);
+                                    wr += x.re[i] * y.re[i] - x.im[i] * y.im[i];
+                                    wi += x.re[i] * y.im[i] + x.im[i] * y.re[i];
+                                }
+                                let d = (re[i] - wr).hypot(im[i] - wi);
+                                if !(d <= tol) {
+                                    return fail("decoded-slots-differ", format!("slot {i}: dot product of {nterms} pairs decrypts to ({:.6e}, {:.6e}), expected ({wr:.6e}, {wi:.6e}); |diff| = {d:.3e} > {tol:.3e} (log_delta {ld}, log_budget {lb})", re[i], im[i]));
+                                }
+                            }
+                            cl.push(if tol / mag.max(1e-3) <= p2(-4) { "values_checked" } else { "values_checked(vacuous_tolerance)" });
+                        }
+                    }
+                    cl.push("ok");
+                }
+            }
+            if nterms >= 2 {
+                cl.push("terms>=2");
+            }
+        }
+        _ => {
+            // product of n ciphertexts with a common log_delta: value and invariants
+            let ins: Vec<&CKKSCiphertext<Vec<u8>>> = regs[..nterms].iter().map(|r| &r.ct).collect();
+            let mut dst = alloc(c.dst_limbs);
+            let r1 = md.ckks_mul_many(&mut dst, &ins, &cx.tsk, sx.roomy());
+            if r1.is_ok() {
+                let (ld, lb) = (dst.log_delta(), dst.log_budget());
+                if ld + lb > dst.max_k().as_usize() {
+                    return fail("metadata-exceeds-stored-precision", format!("log_delta + log_budget = {} > {}", ld + lb, dst.max_k().as_usize()));
+                }
+                if ld != regs[0].sh.ld {
+                    return fail("metadata-differs-from-model", format!("the product of ciphertexts of log_delta {} has log_delta {ld}", regs[0].sh.ld));
+                }
+                let mag: f64 = regs[..nterms].iter().map(|r| r.sh.mag().max(1e-9)).product();
+                if mag * 8.0 < p2(lb as i64) && ld >= 8 {
+                    if let Some((re, im)) = slots_of(cx, &mut sx, &dst, mag) {
+                        // relative error of a product of n factors: sum of the relative errors of the factors and of the n-1 products
+                        let mut rel = 0.0;
+                        for r in &regs[..nterms] {
+                            rel += (r.sh.err + nf * p2(-(r.sh.ld as i64)) * 4.0) / r.sh.mag().max(1e-9);
+                        }
+                        let mut tol = mag * rel * 4.0;
+                        let capk = regs[..nterms].iter().map(|r| r.ct.max_k().as_usize()).min().unwrap().min(dst.max_k().as_usize());
+                        tol += nterms as f64 * (4.0 * nf * 8.0 * p2(b as i64 - 1) * (1.0 + 6.0 * hw + hw * hw) * p2(-(capk as i64)) + key_noise(p.k.div_ceil(b))) * p2(regs[0].sh.lb as i64) * nf * mag.max(1.0);
+                        for i in 0..m {
+                            let (mut wr, mut wi) = (1.0f64, 0.0f64);
+                            for r in &regs[..nterms] {
+                                let (x, y) = (r.sh.re[i], r.sh.im[i]);
+                                let t = wr * x - wi * y;
+                                wi = wr * y + wi * x;
+                                wr = t;
+                            }
+                            let d = (re[i] - wr).hypot(im[i] - wi);
+                            if !(d <= tol) {
+                                return fail("decoded-slots-differ", format!("slot {i}: product of {nterms} ciphertexts decrypts to ({:.6e}, {:.6e}), expected ({wr:.6e}, {wi:.6e}); |diff| = {d:.3e} > {tol:.3e} (log_delta {ld}, log_budget {lb})", re[i], im[i]));
+                            }
+                        }
+                        cl.push(if tol / mag.max(1e-3) <= p2(-4) { "values_checked" } else { "values_checked(vacuous_tolerance)" });
+                    }
+                }
+                cl.push("ok");
+            } else {
+                cl.push("error_path");
+            }
+            if nterms >= 3 {
+                cl.push("terms>=3");
+            }
+        }
+    }
+    Verdict::pass(true, &cl)
+}
+
+pub const COMP_KINDS: [&str; 9] = ["ckks_mul_add_ct_into", "ckks_mul_sub_ct_into", "ckks_mul_add_pt_vec_rnx_into", "ckks_mul_sub_pt_vec_rnx_into", "ckks_mul_add_pt_const_rnx_into", "ckks_mul_sub_pt_const_rnx_into", "ckks_add_many", "ckks_dot_product_ct", "ckks_mul_many"];
